@@ -1,0 +1,15 @@
+//go:build verif
+
+package request
+
+// Contracts checked by /verif's govc.  Comments only; build tag "verif".
+
+//@ unit request
+//@
+//@ // ===== C03: the select a subscription evaluates for an update event is pinned to the document and to
+//@ // the commit of that event
+//@ func (ObjectSubscription).ToSelect -> (r)
+//@   assert before call#1 Some[[]string]: len(arg0) == 1 && arg0[0] == docID
+//@   assert before call#1 Some[string]: arg0 == cid
+//@   ensures r.CIDFilter.CID == res(Some[string], 1, 0)
+//@   tags C03
